@@ -2,5 +2,6 @@
      Proofs/AesPrims.v    tables and primitives, algebra of the spec primitives
      Proofs/AesKeys.v     key expansion / key schedule for all keys
      Proofs/AesCipher.v   stop points, full encrypt / decrypt, decrypt (encrypt) = id, broadcasting
+     Proofs/AesCounts.v   run-length expansion commutes with row-wise functions (count-boundary cases of the C-tie)
    and are re-exported here. *)
-From ScaredV Require Export Proofs.AesPrims Proofs.AesKeys Proofs.AesCipher.
+From ScaredV Require Export Proofs.AesPrims Proofs.AesKeys Proofs.AesCipher Proofs.AesCounts.
